@@ -96,7 +96,7 @@ def main():
                 print(f"{m['id']:45s} {prop} tests={'pass' if tests_ok else tests_ok} {status} {secs:.0f}s {buckets[:2]}")
                 if rc == 2:
                     print(err)
-                with open(os.path.join(HERE, 'out', 'mutants.jsonl'), 'a') as f:
+                with open(os.environ.get('VERIF_MUTANT_LOG') or os.path.join(HERE, 'out', 'mutants.jsonl'), 'a') as f:
                     f.write(json.dumps(rec) + '\n')
         finally:
             shutil.rmtree(d, ignore_errors=True)
